@@ -5,6 +5,7 @@ CONSTANTS
   FullNode = FALSE
   Cap = 2
   Weaken = "compareOwnRoundOnly"
+  GapFix = FALSE
   Direct = FALSE
   Timeouts = FALSE
 PROPERTY HighestMonotone
